@@ -3,6 +3,8 @@ package main
 // Typed evaluation of contract expressions into SMT terms.
 
 import (
+	"regexp"
+	"strconv"
 	"fmt"
 	"math/big"
 	"go/constant"
@@ -22,6 +24,7 @@ type Env struct {
 	st    *State
 	old   *State
 	file  string         // contract file (for import aliases)
+	inTrig bool          // evaluating a trigger term
 	pkg   *types.Package // package scope for unqualified Go names
 	bound map[string]bool
 	hints *[]string // ext hints collected (ground only)
@@ -205,6 +208,9 @@ func (e *Env) ev(x Expr) SV {
 	case *EBin:
 		return e.bin(n)
 	case *EQuant:
+		if sv, ok := e.expandOverLiteral(n); ok {
+			return sv
+		}
 		ne := e.clone()
 		var bs, ranges []string
 		for _, v := range n.Vars {
@@ -238,7 +244,9 @@ func (e *Env) ev(x Expr) SV {
 		for _, tr := range n.Trig {
 			var ts []string
 			for _, t := range tr {
+				ne.inTrig = true
 				ts = append(ts, ne.ev(t).T)
+				ne.inTrig = false
 			}
 			pats += " :pattern (" + strings.Join(ts, " ") + ")"
 		}
@@ -668,6 +676,10 @@ func (e *Env) call(n *ECall) SV {
 		kv := e.coerceNil(e.ev(n.Args[1]), goT(mt.Key()))
 		h := e.ft.stateGet(e.st, "M|"+cell, "(Array Int "+cell+")")
 		cur := "(select " + h + " " + mv.T + ")"
+		if n.Fn == "mhas" && e.inTrig {
+			// inside a trigger only the lookup term is usable (patterns admit no connectives)
+			return SV{fmt.Sprintf("(select (%s.dom %s) %s)", cell, cur, kv.T), tBool}
+		}
 		if n.Fn == "mhas" {
 			return SV{fmt.Sprintf("(and (not (= %s 0)) (select (%s.dom %s) %s))", mv.T, cell, cur, kv.T), tBool}
 		}
@@ -819,4 +831,133 @@ func (g *Gen) hintFn(srt string) string {
 			fmt.Sprintf("(assert (forall ((x %s)) (! (%s x) :pattern ((%s x)))))", srt, fn, fn))
 	}
 	return fn
+}
+
+// expandOverLiteral: a quantifier over the indices of a sequence whose value is a literal of known length
+//   exists j int :: 0 <= j && j < len(X) && R(j)      forall j int :: 0 <= j && j < len(X) ==> R(j)
+// is the finite disjunction / conjunction of R(0) .. R(n-1). Purely an aid to the solvers (an equivalent formula).
+func (e *Env) expandOverLiteral(n *EQuant) (SV, bool) {
+	if len(n.Vars) != 1 || e.ft == nil {
+		return SV{}, false
+	}
+	v := n.Vars[0]
+	if v.Type != "int" {
+		return SV{}, false
+	}
+	var rng, rest Expr
+	b, ok := n.Body.(*EBin)
+	if !ok {
+		return SV{}, false
+	}
+	if n.Forall && b.Op == "==>" {
+		rng, rest = b.L, b.R
+	} else if !n.Forall && b.Op == "&&" {
+		// ((0 <= j && j < len(X)) && R1) && R2 ... : peel the leftmost range conjunct
+		var conj []Expr
+		var flat func(x Expr)
+		flat = func(x Expr) {
+			if bb, ok := x.(*EBin); ok && bb.Op == "&&" {
+				flat(bb.L)
+				flat(bb.R)
+				return
+			}
+			conj = append(conj, x)
+		}
+		flat(b)
+		if len(conj) < 3 {
+			return SV{}, false
+		}
+		rng = &EBin{Op: "&&", L: conj[0], R: conj[1]}
+		rest = conj[2]
+		for _, c := range conj[3:] {
+			rest = &EBin{Op: "&&", L: rest, R: c}
+		}
+	} else {
+		return SV{}, false
+	}
+	rb, ok := rng.(*EBin)
+	if !ok || rb.Op != "&&" {
+		return SV{}, false
+	}
+	lo, ok1 := rb.L.(*EBin)
+	hi, ok2 := rb.R.(*EBin)
+	if !ok1 || !ok2 || lo.Op != "<=" || hi.Op != "<" {
+		return SV{}, false
+	}
+	if z, ok := lo.L.(*EInt); !ok || z.V != "0" {
+		return SV{}, false
+	}
+	if id, ok := lo.R.(*EIdent); !ok || id.Name != v.Name {
+		return SV{}, false
+	}
+	if id, ok := hi.L.(*EIdent); !ok || id.Name != v.Name {
+		return SV{}, false
+	}
+	lc, ok := hi.R.(*ECall)
+	if !ok || lc.Fn != "len" || len(lc.Args) != 1 || lc.Recv != nil {
+		return SV{}, false
+	}
+	var xt string
+	func() {
+		defer func() {
+			if r := recover(); r != nil {
+				xt = ""
+			}
+		}()
+		xt = e.ev(lc.Args[0]).T
+	}()
+	if xt == "" {
+		return SV{}, false
+	}
+	cnt := e.ft.literalLen(xt)
+	if cnt < 0 || cnt > 64 {
+		return SV{}, false
+	}
+	var parts []string
+	for k := 0; k < cnt; k++ {
+		ne := e.clone()
+		ne.vars[v.Name] = SV{fmt.Sprint(k), tInt}
+		ne.hints = nil
+		parts = append(parts, ne.ev(rest).T)
+	}
+	switch {
+	case len(parts) == 0 && n.Forall:
+		return SV{"true", tBool}, true
+	case len(parts) == 0:
+		return SV{"false", tBool}, true
+	case n.Forall:
+		return SV{"(and true " + strings.Join(parts, " ") + ")", tBool}, true
+	}
+	return SV{"(or false " + strings.Join(parts, " ") + ")", tBool}, true
+}
+
+var litSeqRe = regexp.MustCompile(`^\(lit([0-9]+)_Seq_`)
+
+// literalLen: the length of a sequence term that is (or is defined by a fact to be) a literal; -1 if unknown.
+func (ft *FT) literalLen(t string) int {
+	for depth := 0; depth < 4; depth++ {
+		if m := litSeqRe.FindStringSubmatch(t); m != nil {
+			n, _ := strconv.Atoi(m[1])
+			return n
+		}
+		if strings.HasPrefix(t, "lit0_Seq_") {
+			return 0
+		}
+		if !strings.HasPrefix(t, "|") {
+			return -1
+		}
+		found := ""
+		pre := "(= " + t + " "
+		for _, f := range ft.facts {
+			if strings.HasPrefix(f, pre) {
+				found = strings.TrimSuffix(f[len(pre):], ")")
+				break
+			}
+		}
+		if found == "" {
+			return -1
+		}
+		t = found
+	}
+	return -1
 }
